@@ -14,10 +14,10 @@ import time
 
 VERIF = os.path.dirname(os.path.dirname(os.path.abspath(__file__)))
 REPO = os.environ.get("VERIF_REPO", "/repo")
-BUILD = os.path.join(VERIF, "build")
+BUILD = os.environ.get("VERIF_BUILD", os.path.join(VERIF, "build"))
 SRC = os.path.join(VERIF, "src")
-EVID = os.path.join(VERIF, "evidence")
-REPLAYS = os.path.join(VERIF, "replays")
+EVID = os.path.join(BUILD if os.environ.get("VERIF_MUTCHECK") else VERIF, "evidence")
+REPLAYS = os.path.join(BUILD if os.environ.get("VERIF_MUTCHECK") else VERIF, "replays")
 GUARD = "SVT_AV1_VERIF"
 NCPU = min(16, os.cpu_count() or 1)
 
